@@ -41,6 +41,10 @@ type Doc struct {
 	// quote other formats' signatures; layouts place them first, last and
 	// in between (mention.go).
 	Mentions []writers.Member
+	// KeySuffix names the class of spelling the document belongs to
+	// (opening.go); it is appended to the keys of the recognition oracles so
+	// that a failure names the class.
+	KeySuffix string
 }
 
 func (d *Doc) IsZip() bool { return d.Members != nil }
